@@ -95,14 +95,19 @@ func c15ObjName(gvk string, i int) string {
 func c15GenDocs(r *Rng, ptype string, large bool) []c15Doc {
 	k := c15GetKinds()
 	var docs []c15Doc
+	valid := r.Chance(3, 5) // an installable package; otherwise defects are sprinkled in
 	// meta
 	con := Pick(r, []string{"none", "none", "none", "in", "in", "out", "bad"})
-	if r.Chance(1, 6) {
-		con = "out"
+	if valid {
+		con = Pick(r, []string{"none", "none", "in", "in", "in", "out"})
 	}
 	mk := func(gvk string) c15Doc { return c15Doc{T: "meta", GVK: gvk, Name: "pkg-" + ptype, Con: con} }
-	switch x := r.Intn(100); {
-	case x < 70:
+	x := r.Intn(100)
+	if valid {
+		x = r.Intn(80)
+	}
+	switch {
+	case x < 65:
 		docs = append(docs, mk(c15GoodMeta(ptype)))
 	case x < 80:
 		docs = append(docs, mk(Pick(r, k.metaOK[ptype])))
@@ -118,10 +123,10 @@ func c15GenDocs(r *Rng, ptype string, large bool) []c15Doc {
 	n := r.Intn(7)
 	for i := 0; i < n; i++ {
 		var g string
-		switch x := r.Intn(100); {
-		case x < 78:
+		switch y := r.Intn(100); {
+		case valid || y < 80:
 			g = Pick(r, k.allowed[ptype])
-		case x < 90:
+		case y < 92:
 			g = Pick(r, k.allowed[Pick(r, c15PTypes)])
 		default:
 			g = Pick(r, k.obj)
@@ -137,7 +142,7 @@ func c15GenDocs(r *Rng, ptype string, large bool) []c15Doc {
 	if r.Chance(1, 6) {
 		docs = append(docs, c15Doc{T: "empty"})
 	}
-	if r.Chance(1, 14) {
+	if !valid && r.Chance(1, 6) {
 		docs = append(docs, c15Doc{T: "bad", Name: Pick(r, []string{"unknown", "malformed", "nokind"})})
 	}
 	// order: the meta is usually first
@@ -163,7 +168,7 @@ func c15GenRev(r *Rng, idx int) c15Rev {
 		Name:   fmt.Sprintf("pkg%c-%s-%06x", 'a'+idx, ptype, r.Intn(1<<24)),
 		Docs:   c15GenDocs(r, ptype, large),
 		Shape:  r.Intn(8),
-		Img:    Pick(r, []string{"annotated", "annotated", "annotated", "annotated", "multi", "multi", "plain", "plain", "plain2", "plain2", "twoann", "nofile"}),
+		Img:    Pick(r, []string{"annotated", "annotated", "annotated", "annotated", "annotated", "multi", "multi", "multi", "plain", "plain", "plain", "plain2", "plain2", "plain2", "twoann", "nofile"}),
 		Never:  r.Chance(1, 12),
 		Ignore: r.Chance(1, 5),
 		Pre:    Pick(r, []string{"cold", "cold", "cold", "cold", "cold", "warm", "warm", "warm", "nohdr", "hdr"}),
@@ -196,6 +201,9 @@ func c15GenFaults(r *Rng, rev *c15Rev) c15Faults {
 				cands = []int{r.Intn(L)}
 			default:
 				cands = []int{L - 1, L - 2}
+			}
+			if len(cands) == 0 {
+				cands = []int{0, L / 2}
 			}
 			b := Pick(r, cands)
 			if b < 0 {
@@ -302,15 +310,15 @@ func c15Cls(scn *c15Scn, obs *c15Obs) string {
 		}
 	}
 	r0 := scn.Revs[0]
-	res := "-"
-	if len(obs.Steps) > 0 {
-		res = obs.Steps[len(obs.Steps)-1].Res
-	}
 	pol := "pull"
 	if r0.Never {
 		pol = "never"
 	}
-	return fmt.Sprintf("%s/%s/%s/pre=%s/revs=%d/steps=%d/f=%s/est=%d/last=%s", r0.PType, r0.Img, pol, r0.Pre, len(scn.Revs), len(scn.Steps), strings.Join(c15SortedKeys(fk), "+"), est, res)
+	e := "noest"
+	if est > 0 {
+		e = "est"
+	}
+	return fmt.Sprintf("%s/%s/%s/pre=%s/revs=%d/f=%s/%s", r0.PType, r0.Img, pol, r0.Pre, len(scn.Revs), strings.Join(c15SortedKeys(fk), "+"), e)
 }
 
 // ---------------------------------------------------------------- xpkg build round trip (a differential TEST, not a theorem)
@@ -484,6 +492,51 @@ func c15Emit(c *Ctx, scn *c15Scn, corpus bool) {
 	c.Emit(scn, obs, mons, cls)
 }
 
+// c15Sweeps: fault at EVERY byte position (thorough) or at a regular stride (quick) of
+// one package, for the source read and for the cache write; each followed by a
+// fault-free reconcile sharing the cache.
+func c15Sweeps(c *Ctx) {
+	base := c15Witnesses()[0]
+	rev := base.Revs[0]
+	stream, _, _ := c15Stream(rev.Docs, rev.Shape)
+	L := len(stream)
+	G := len(c15Gzip(stream))
+	stride := func(n int) int {
+		if c.Tier == "thorough" {
+			return 1
+		}
+		if n/120 < 1 {
+			return 1
+		}
+		return n / 120
+	}
+	clean := c15Step{K: "rec", Active: true, F: c15Faults{Read: -1}}
+	for _, img := range []string{"annotated", "plain2", "multi"} {
+		for b := 0; b < L; b += stride(L) {
+			s := c15Scn{Kind: "rev", Revs: []c15Rev{rev}, Steps: []c15Step{{K: "rec", Active: true, F: c15Faults{Read: b}}, clean}}
+			s.Revs[0].Img = img
+			s.Revs[0].Name = fmt.Sprintf("pkga-provider-%06x", b)
+			c15EmitCls(c, &s, fmt.Sprintf("sweep/read/%s", img))
+		}
+	}
+	for b := 0; b <= G; b += stride(G) {
+		for _, del := range []bool{false, true} {
+			s := c15Scn{Kind: "rev", Revs: []c15Rev{rev}, Steps: []c15Step{{K: "rec", Active: true, F: c15Faults{Read: -1, Store: "write", StoreN: b, Del: del}}, clean, clean}}
+			s.Revs[0].Name = fmt.Sprintf("pkga-provider-%06x", b)
+			c15EmitCls(c, &s, fmt.Sprintf("sweep/store/del=%v", del))
+		}
+	}
+}
+
+func c15EmitCls(c *Ctx, scn *c15Scn, cls string) {
+	var obs c15Obs
+	var mons []Mon
+	if p := Guard(func() { obs, mons = c15Run(scn) }); p != "" {
+		mons = append(mons, Mon{Sig: "C15:harness-panic", Why: p})
+	}
+	c.Emit(scn, obs, mons, cls)
+}
+
 func init() {
 	Register("C15", func(c *Ctx) {
 		for _, raw := range c.Corpus {
@@ -491,6 +544,10 @@ func init() {
 			if err := jsonUnmarshalStrict(raw, &s); err == nil && len(s.Revs) > 0 {
 				c15Emit(c, &s, true)
 			}
+		}
+		if len(c.Corpus) > 0 {
+			// only the shard that replays the corpus runs the systematic sweeps
+			c15Sweeps(c)
 		}
 		for i := 0; i < c.N; i++ {
 			if i%25 == 24 {
